@@ -766,7 +766,8 @@ func init() {
 	Register(&Prop{
 		ID:    "C10",
 		Title: "No query, option set or input can crash or hang the host process",
-		Rule: "every case runs in a child process. Classes: valid = the 47 wide constructs (incl. multi-dimensional selector items and FUSE) under all 2^3 option sets; mutated = 1-3 token mutations " +
+		Rule: "[Dimensions added in rounds p-r of the seeded-defect evaluation: scale class huge-rows (2100-6500 rows, one unreadable value, ORDER BY / WHERE with sub queries, EXISTS, ONCE / GROUP BY / DISTINCT / joins / ASYNC); qualified calls nested in calls of the same function under the same qualifier.] " +
+			"every case runs in a child process. Classes: valid = the 47 wide constructs (incl. multi-dimensional selector items and FUSE) under all 2^3 option sets; mutated = 1-3 token mutations " +
 			"(delete, duplicate, swap, insert one of 60 keywords/brackets/quotes/qualifiers, replace, truncate) of a valid query; bytes = strings over an " +
 			"alphabet of SQL fragments, quotes, brackets, NUL, invalid UTF-8; hostile = 134 curated constants (NATURAL/CROSS/USING joins, chained UNION, " +
 			"self- and mutually-referencing CTEs, unbalanced brackets/quotes, out-of-range FROM paths, wrong-typed function arguments, qualifiers on " +
